@@ -22,8 +22,8 @@ BUDGET = {'quick': 6000, 'thorough': 160000}
 PROFILE = {
     'max_pods': 3, 'max_racks': 3,
     'weights': {'app': 14, 'rmsrv': 2, 'readd': 2, 'prio': 2, 'clone': 4,
-                'clone2': 4},
-    'force': ['clone2'],
+                'clone2': 4, 'fillclone2': 3, 'fill': 1},
+    'force': ['clone2', 'fillclone2'],
     'lease': False,
 }
 
